@@ -20,12 +20,24 @@ thread_local! {
     static NEVENTS: Cell<usize> = const { Cell::new(0) };
 }
 
+/// Threads mode: events go to a process-global sink keyed by a per-thread id kept in a
+/// destructor-less thread-local, so that they can still be recorded while the thread's
+/// thread-locals are being destroyed.
+pub static SINK: std::sync::Mutex<Vec<(u64, String)>> = std::sync::Mutex::new(Vec::new());
+thread_local! {
+    pub static SINK_ID: Cell<u64> = const { Cell::new(0) };
+}
+
+pub fn take_sink() -> Vec<(u64, String)> {
+    std::mem::take(&mut *SINK.lock().unwrap())
+}
+
 pub fn install_observer() {
     rust_cc::verif_hooks::set_alloc_observer(observer);
 }
 
 fn observer(kind: u8, ptr: *mut u8, size: usize, align: usize) {
-    let oid = if kind == rust_cc::verif_hooks::KIND_BOX { CUR_NEW.with(|c| c.get()) } else { CUR_META.with(|c| c.get()) };
+    let oid = if kind == rust_cc::verif_hooks::KIND_BOX { CUR_NEW.try_with(|c| c.get()).unwrap_or(0) } else { CUR_META.try_with(|c| c.get()).unwrap_or(0) };
     let e = alloc::register(kind, ptr, size, align, oid);
     let k = if kind == rust_cc::verif_hooks::KIND_BOX { "box" } else { "meta" };
     emit(json!({"e": "alloc", "k": k, "o": oid, "blk": e.blk, "size": e.size, "align": e.align}));
@@ -98,6 +110,11 @@ fn same(exp: &Value, got: &Value) -> bool {
 }
 
 fn push(ev: Value) {
+    let sid = SINK_ID.try_with(|c| c.get()).unwrap_or(0);
+    if sid != 0 {
+        SINK.lock().unwrap().push((sid, ev.to_string()));
+        return;
+    }
     NEVENTS.with(|n| n.set(n.get() + 1));
     if REPLAY.with(|r| r.get()) {
         let cur = CUR.with(|c| c.get());
